@@ -360,6 +360,8 @@ const c11kindsModule = `module g { namespace "urn:g"; prefix g; import gi { pref
  leaf mainl { if-feature "sf and h"; type string; }
  grouping grp3 { leaf r1 { if-feature "not f"; type string; } leaf r2 { type string; } container rc { if-feature h; leaf in { type string; } } }
  container rr { uses grp3 { refine r1 { description "r1d"; } refine r2 { description "r2d"; } augment rc { leaf added { type string; } } } }
+ grouping grpch { choice ch { leaf base { type string; } } }
+ container ua { uses grpch { augment ch { case k { if-feature f; leaf kl { type string; } } leaf sh { if-feature f; type string; } leaf keep { type string; } case kh { leaf khl { if-feature h; type string; } leaf khk { type string; } } } } }
  container hc { if-feature h; leaf hl { type string; } }
  augment "/hc" { leaf ha { type string; } }
  container ig { uses gi:igrp; }
@@ -417,6 +419,8 @@ func c11kinds(c *core.Ctx) {
 				// a feature declared in a submodule is a feature of the module
 				"/subl": sOn, "/subf": fOn, "/mainl": sOn && hOn,
 				// refines and augments whose target a false feature left out have nothing to do; the others still apply
+				// cases and shorthand cases that an augment inside a uses adds to a choice
+				"/ua/ch/base/base": true, "/ua/ch/k": fOn, "/ua/ch/k/kl": fOn, "/ua/ch/sh": fOn, "/ua/ch/sh/sh": fOn, "/ua/ch/keep/keep": true, "/ua/ch/kh/khl": hOn, "/ua/ch/kh/khk": true,
 				"/rr/r1": !fOn, "/rr/r2": true, "/rr/rc": hOn, "/rr/rc/added": hOn, "/hc": hOn, "/hc/ha": hOn,
 			}
 			paths := make([]string, 0, len(expect))
@@ -431,6 +435,16 @@ func c11kinds(c *core.Ctx) {
 				got := d.Find(p) != nil
 				if got != expect[p] {
 					c.Violation(core.Replay{Kind: "property-failure", Class: "kind-" + p, Summary: fmt.Sprintf("features %v: node %s present=%v, want %v", on, p, got, expect[p]), Input: map[string]interface{}{"module": c11kindsModule, "features": on}})
+				}
+			}
+			// the nodes of a case are found by name from the node that holds the choice - exactly when they are there
+			for data, present := range map[string]bool{"k1l": fOn, "k2l": true, "b3l": fOn, "a3l": true, "zz": false, "ua/kl": fOn, "ua/sh": fOn, "ua/keep": true, "ua/khl": hOn, "ua/khk": true, "ua/base": true, "c1l": fOn} {
+				c.Evaluations++
+				var got bool
+				if perr := safeDo(func() error { got = meta.Find(m, data) != nil; return nil }); perr != nil {
+					c.Violation(core.Replay{Kind: "property-failure", Class: "find-in-case", Summary: fmt.Sprintf("features %v: meta.Find(%q): %v", on, data, perr), Input: c11kindsModule})
+				} else if got != present {
+					c.Violation(core.Replay{Kind: "property-failure", Class: "find-in-case-" + data, Summary: fmt.Sprintf("features %v: meta.Find(%q) found=%v, the node is present=%v", on, data, got, present), Input: map[string]interface{}{"module": c11kindsModule, "features": on}})
 				}
 			}
 			// refine guarded by a false feature leaves the description, the refine after it still applies
@@ -480,6 +494,8 @@ const c11devBase = `module d { namespace "urn:d"; prefix d; revision 2020-01-01;
  }
  container one { uses g; }
  container two { uses g; }
+ choice pick { default p1; case p1 { leaf pl1 { type string; } } case p2 { leaf pl2 { type string; } container pc2 { leaf in { type string; } } } }
+ choice nodef { case n1 { leaf nl1 { type string; } } leaf nl2 { type string; } }
  container mm { leaf-list onlymin { type string; min-elements 1; } leaf-list onlymax { type string; max-elements 5; } list lmin { key k; min-elements 1; leaf k { type string; } } list lmax { key k; max-elements 5; leaf k { type string; } } }
  %s
 }`
@@ -549,6 +565,13 @@ func c11deviations(c *core.Ctx) {
 		{`deviation /top/a { deviate add { must "../sub"; } }`, "/top/a", false, map[string]string{"must": "../b ;; ../c ;; ../ll ;; ../sub"}},
 		{`deviation /top/li { deviate delete { unique "u1"; } }`, "/top/li", false, map[string]string{"unique": "u3"}},
 		{`deviation /top/li { deviate delete { unique "u3"; } }`, "/top/li", false, map[string]string{"unique": "u1"}},
+		// the default of a choice; a case as the target of not-supported
+		{`deviation /pick { deviate replace { default p2; } }`, "/pick", false, map[string]string{"default": "p2"}},
+		{`deviation /pick { deviate delete { default p1; } }`, "/pick", false, map[string]string{"default": ""}},
+		{`deviation /nodef { deviate add { default nl2; } }`, "/nodef", false, map[string]string{"default": "nl2"}},
+		{`deviation /pick/p2 { deviate not-supported; }`, "/pick/p2", true, nil},
+		{`deviation /nodef/nl2 { deviate not-supported; }`, "/nodef/nl2", true, nil},
+		{`deviation /pick/p2/pl2 { deviate not-supported; }`, "/pick/p2/pl2", true, nil},
 	}
 	baseDump := DumpModule(base, true)
 	for _, dv := range devs {
@@ -584,6 +607,12 @@ func c11deviations(c *core.Ctx) {
 			if dv.removed {
 				if t != nil {
 					return "target still present"
+				}
+				// ... and not found by name from the node that holds it either
+				for _, name := range map[string][]string{"/pick/p2": {"pl2", "pc2"}, "/nodef/nl2": {"nl2"}, "/pick/p2/pl2": {"pl2"}, "/top/c": {"top/c"}, "/top/sub": {"top/sub"}, "/one/gl": {"one/gl"}}[dv.target] {
+					if meta.Find(m, name) != nil {
+						return fmt.Sprintf("target removed from the tree, but meta.Find(%q) still finds it", name)
+					}
 				}
 				return ""
 			}
